@@ -1,6 +1,29 @@
-(* Lemmas about swarm maps (Model/Swarm.v). *)
+(* Lemmas about swarm maps (Model/Swarm.v): every operation on key k is a
+   pointwise update  m' !! k' = if k' = k then g (m !! k) else m !! k'  whose
+   function g does not depend on the key type - the heart of the refinement
+   between a sharded store and the specification; and how the totals move. *)
 From Chihaya Require Import Model.Swarm.
 Open Scope Z_scope.
+
+(* the key-independent update functions *)
+Definition o_sw (o : option swarm) : swarm := default empty_swarm o.
+Definition norm (sw : swarm) : option swarm := if swarm_empty sw then None else Some sw.
+Definition g_put_seeder (pk : list Z) (t : Z) (o : option swarm) : option swarm :=
+  Some {| seeders := <[pk := t]> (seeders (o_sw o)); leechers := leechers (o_sw o) |}.
+Definition g_put_leecher (pk : list Z) (t : Z) (o : option swarm) : option swarm :=
+  Some {| seeders := seeders (o_sw o); leechers := <[pk := t]> (leechers (o_sw o)) |}.
+Definition g_graduate (pk : list Z) (t : Z) (o : option swarm) : option swarm :=
+  Some {| seeders := <[pk := t]> (seeders (o_sw o)); leechers := delete pk (leechers (o_sw o)) |}.
+Definition has_seeder (pk : list Z) (o : option swarm) : bool :=
+  match o with Some sw => bool_decide (is_Some (seeders sw !! pk)) | None => false end.
+Definition has_leecher (pk : list Z) (o : option swarm) : bool :=
+  match o with Some sw => bool_decide (is_Some (leechers sw !! pk)) | None => false end.
+Definition g_del_seeder (pk : list Z) (o : option swarm) : option swarm :=
+  if has_seeder pk o then norm {| seeders := delete pk (seeders (o_sw o)); leechers := leechers (o_sw o) |} else o.
+Definition g_del_leecher (pk : list Z) (o : option swarm) : option swarm :=
+  if has_leecher pk o then norm {| seeders := seeders (o_sw o); leechers := delete pk (leechers (o_sw o)) |} else o.
+Definition g_expire (T : Z) (o : option swarm) : option swarm :=
+  o ≫= λ sw, norm (sw_expire T sw).
 
 Section SwarmMap.
   Context {K : Type} `{Countable K}.
@@ -18,19 +41,189 @@ Section SwarmMap.
     - by rewrite lookup_insert.
   Qed.
 
-  Lemma sm_set_ne k k' sw m : k ≠ k' → sm_set k sw m !! k' = m !! k'.
+  Lemma sm_set_lookup k k' sw m :
+    sm_set k sw m !! k' = if decide (k' = k) then norm sw else m !! k'.
   Proof.
-    intros Hne. unfold sm_set. destruct (swarm_empty sw).
+    unfold sm_set, norm. destruct (decide (k' = k)) as [->|Hne]; destruct (swarm_empty sw).
+    - by rewrite lookup_delete.
+    - by rewrite lookup_insert.
     - by rewrite lookup_delete_ne.
     - by rewrite lookup_insert_ne.
   Qed.
 
+  Lemma sm_put_seeder_lookup k k' pk t m :
+    (sm_put_seeder k pk t m).1 !! k' = if decide (k' = k) then g_put_seeder pk t (m !! k) else m !! k'.
+  Proof.
+    unfold sm_put_seeder, sm_get, g_put_seeder, o_sw. cbn [fst].
+    destruct (decide (k' = k)) as [->|Hne]; [by rewrite lookup_insert|by rewrite lookup_insert_ne].
+  Qed.
+  Lemma sm_put_leecher_lookup k k' pk t m :
+    (sm_put_leecher k pk t m).1 !! k' = if decide (k' = k) then g_put_leecher pk t (m !! k) else m !! k'.
+  Proof.
+    unfold sm_put_leecher, sm_get, g_put_leecher, o_sw. cbn [fst].
+    destruct (decide (k' = k)) as [->|Hne]; [by rewrite lookup_insert|by rewrite lookup_insert_ne].
+  Qed.
+  Lemma sm_graduate_lookup k k' pk t m :
+    (sm_graduate k pk t m).1.1 !! k' = if decide (k' = k) then g_graduate pk t (m !! k) else m !! k'.
+  Proof.
+    unfold sm_graduate, sm_get, g_graduate, o_sw. cbn [fst].
+    destruct (decide (k' = k)) as [->|Hne]; [by rewrite lookup_insert|by rewrite lookup_insert_ne].
+  Qed.
+
+  Lemma sm_del_seeder_some k pk m : is_Some (sm_del_seeder k pk m) ↔ has_seeder pk (m !! k) = true.
+  Proof.
+    unfold sm_del_seeder, has_seeder. destruct (m !! k) as [sw|]; [|split; [intros [? ?]|]; done].
+    rewrite bool_decide_eq_true. destruct (seeders sw !! pk); split; intros [? ?]; done.
+  Qed.
+  Lemma sm_del_leecher_some k pk m : is_Some (sm_del_leecher k pk m) ↔ has_leecher pk (m !! k) = true.
+  Proof.
+    unfold sm_del_leecher, has_leecher. destruct (m !! k) as [sw|]; [|split; [intros [? ?]|]; done].
+    rewrite bool_decide_eq_true. destruct (leechers sw !! pk); split; intros [? ?]; done.
+  Qed.
+  (* the map after DeleteSeeder (unchanged when the member does not exist) *)
+  Lemma sm_del_seeder_lookup k k' pk m :
+    default m (sm_del_seeder k pk m) !! k' = if decide (k' = k) then g_del_seeder pk (m !! k) else m !! k'.
+  Proof.
+    unfold sm_del_seeder, g_del_seeder, has_seeder, o_sw.
+    destruct (m !! k) as [sw|] eqn:E; cbn.
+    - destruct (seeders sw !! pk) eqn:E2; cbn.
+      + apply sm_set_lookup.
+      + destruct (decide (k' = k)) as [->|]; done.
+    - destruct (decide (k' = k)) as [->|]; done.
+  Qed.
+  Lemma sm_del_leecher_lookup k k' pk m :
+    default m (sm_del_leecher k pk m) !! k' = if decide (k' = k) then g_del_leecher pk (m !! k) else m !! k'.
+  Proof.
+    unfold sm_del_leecher, g_del_leecher, has_leecher, o_sw.
+    destruct (m !! k) as [sw|] eqn:E; cbn.
+    - destruct (leechers sw !! pk) eqn:E2; cbn.
+      + apply sm_set_lookup.
+      + destruct (decide (k' = k)) as [->|]; done.
+    - destruct (decide (k' = k)) as [->|]; done.
+  Qed.
+
+  Lemma sm_gc_lookup T m k : sm_gc T m !! k = g_expire T (m !! k).
+  Proof. unfold sm_gc, g_expire. rewrite lookup_omap. done. Qed.
+  Lemma sm_gc_one_lookup T k k' m :
+    sm_gc_one T k m !! k' = if decide (k' = k) then g_expire T (m !! k) else m !! k'.
+  Proof.
+    unfold sm_gc_one, g_expire. destruct (m !! k) as [sw|] eqn:E; cbn.
+    - by rewrite sm_set_lookup.
+    - destruct (decide (k' = k)) as [->|]; done.
+  Qed.
+
+  Lemma sm_scrape_lookup k m :
+    sm_scrape k m = match m !! k with
+                    | None => (0, 0)
+                    | Some sw => (Z.of_nat (size (seeders sw)), Z.of_nat (size (leechers sw)))
+                    end.
+  Proof. done. Qed.
+
+  (* ---- clause lemmas, in the words of C01 *)
   (* announcing with nothing left lists the peer as a seeder, with the current clock *)
   Lemma put_seeder_listed k pk t m :
     seeders (sm_get k (sm_put_seeder k pk t m).1) !! pk = Some t.
   Proof. unfold sm_put_seeder, sm_get. cbn. rewrite lookup_insert. cbn. by rewrite lookup_insert. Qed.
-
   Lemma put_leecher_listed k pk t m :
     leechers (sm_get k (sm_put_leecher k pk t m).1) !! pk = Some t.
   Proof. unfold sm_put_leecher, sm_get. cbn. rewrite lookup_insert. cbn. by rewrite lookup_insert. Qed.
+  (* event=completed moves the peer from leecher to seeder *)
+  Lemma graduate_moves k pk t m :
+    let sw := sm_get k (sm_graduate k pk t m).1.1 in
+    seeders sw !! pk = Some t ∧ leechers sw !! pk = None.
+  Proof.
+    unfold sm_graduate, sm_get. cbn. rewrite lookup_insert. cbn.
+    by rewrite lookup_insert, lookup_delete.
+  Qed.
+
+  (* ---- totals *)
+  Lemma total_seeders_fresh k sw m :
+    m !! k = None → sm_total_seeders (<[k := sw]> m) = sm_total_seeders m + Z.of_nat (size (seeders sw)).
+  Proof.
+    intros Hn. unfold sm_total_seeders. rewrite map_fold_insert_L; [done| |done]. intros; lia.
+  Qed.
+  Lemma total_leechers_fresh k sw m :
+    m !! k = None → sm_total_leechers (<[k := sw]> m) = sm_total_leechers m + Z.of_nat (size (leechers sw)).
+  Proof.
+    intros Hn. unfold sm_total_leechers. rewrite map_fold_insert_L; [done| |done]. intros; lia.
+  Qed.
+  Lemma size_empty_swarm_s : size (seeders empty_swarm) = 0%nat.
+  Proof. done. Qed.
+  Lemma size_empty_swarm_l : size (leechers empty_swarm) = 0%nat.
+  Proof. done. Qed.
+  Lemma total_seeders_split k m :
+    sm_total_seeders m = sm_total_seeders (delete k m) + Z.of_nat (size (seeders (o_sw (m !! k)))).
+  Proof.
+    destruct (m !! k) as [sw0|] eqn:E; cbn.
+    - rewrite <- (insert_delete m k sw0 E) at 1. rewrite total_seeders_fresh by apply lookup_delete. done.
+    - rewrite delete_notin by done. cbn. rewrite map_size_empty. lia.
+  Qed.
+  Lemma total_leechers_split k m :
+    sm_total_leechers m = sm_total_leechers (delete k m) + Z.of_nat (size (leechers (o_sw (m !! k)))).
+  Proof.
+    destruct (m !! k) as [sw0|] eqn:E; cbn.
+    - rewrite <- (insert_delete m k sw0 E) at 1. rewrite total_leechers_fresh by apply lookup_delete. done.
+    - rewrite delete_notin by done. cbn. rewrite map_size_empty. lia.
+  Qed.
+  Lemma total_seeders_insert k sw m :
+    sm_total_seeders (<[k := sw]> m) =
+    sm_total_seeders m - Z.of_nat (size (seeders (o_sw (m !! k)))) + Z.of_nat (size (seeders sw)).
+  Proof.
+    rewrite <- (insert_delete_insert m k sw), total_seeders_fresh by apply lookup_delete.
+    rewrite (total_seeders_split k m). lia.
+  Qed.
+  Lemma total_leechers_insert k sw m :
+    sm_total_leechers (<[k := sw]> m) =
+    sm_total_leechers m - Z.of_nat (size (leechers (o_sw (m !! k)))) + Z.of_nat (size (leechers sw)).
+  Proof.
+    rewrite <- (insert_delete_insert m k sw), total_leechers_fresh by apply lookup_delete.
+    rewrite (total_leechers_split k m). lia.
+  Qed.
+  Lemma total_seeders_delete k m :
+    sm_total_seeders (delete k m) = sm_total_seeders m - Z.of_nat (size (seeders (o_sw (m !! k)))).
+  Proof. rewrite (total_seeders_split k m). lia. Qed.
+  Lemma total_leechers_delete k m :
+    sm_total_leechers (delete k m) = sm_total_leechers m - Z.of_nat (size (leechers (o_sw (m !! k)))).
+  Proof. rewrite (total_leechers_split k m). lia. Qed.
+  Lemma total_seeders_set k sw m :
+    sm_total_seeders (sm_set k sw m) =
+    sm_total_seeders m - Z.of_nat (size (seeders (o_sw (m !! k)))) + Z.of_nat (size (seeders sw)).
+  Proof.
+    unfold sm_set. destruct (swarm_empty sw) eqn:E.
+    - apply swarm_empty_iff in E as [-> _]. rewrite total_seeders_delete, map_size_empty. lia.
+    - apply total_seeders_insert.
+  Qed.
+  Lemma total_leechers_set k sw m :
+    sm_total_leechers (sm_set k sw m) =
+    sm_total_leechers m - Z.of_nat (size (leechers (o_sw (m !! k)))) + Z.of_nat (size (leechers sw)).
+  Proof.
+    unfold sm_set. destruct (swarm_empty sw) eqn:E.
+    - apply swarm_empty_iff in E as [_ ->]. rewrite total_leechers_delete, map_size_empty. lia.
+    - apply total_leechers_insert.
+  Qed.
+  Lemma total_seeders_nonneg m : 0 <= sm_total_seeders m.
+  Proof.
+    unfold sm_total_seeders. apply (map_fold_ind (λ r _, 0 <= r)); [done|]. intros; lia.
+  Qed.
+  Lemma total_leechers_nonneg m : 0 <= sm_total_leechers m.
+  Proof.
+    unfold sm_total_leechers. apply (map_fold_ind (λ r _, 0 <= r)); [done|]. intros; lia.
+  Qed.
 End SwarmMap.
+
+Lemma size_insert_Z (g : gmap (list Z) Z) pk t :
+  Z.of_nat (size (<[pk := t]> g)) = Z.of_nat (size g) + (if g !! pk then 0 else 1).
+Proof.
+  destruct (g !! pk) eqn:E.
+  - rewrite map_size_insert_Some by eauto. lia.
+  - rewrite map_size_insert_None by done. lia.
+Qed.
+Lemma size_delete_Z (g : gmap (list Z) Z) pk :
+  Z.of_nat (size (delete pk g)) = Z.of_nat (size g) - (if g !! pk then 1 else 0).
+Proof.
+  destruct (g !! pk) eqn:E.
+  - rewrite map_size_delete_Some by eauto. assert (size g ≠ 0%nat).
+    { intros Hz. apply map_size_empty_iff in Hz. subst. rewrite lookup_empty in E. done. }
+    lia.
+  - rewrite map_size_delete_None by done. lia.
+Qed.
